@@ -4,6 +4,7 @@ CONSTANTS
   M = 2
   MaxR = 1
   OnceSetup = TRUE
-INVARIANTS TypeOK Conservation SetupOnce EofComplete Ordered NoStall AllDone BlockedConsumerReleased NoopCloseStartsNothing
+  CloseOn = "exit"
+INVARIANTS TypeOK Conservation SetupOnce EofComplete Ordered NoStall AllDone BlockedConsumerReleased NoDeadlock NoopCloseStartsNothing
 PROPERTIES Settles LiveTerminates
 CHECK_DEADLOCK FALSE
